@@ -52,6 +52,8 @@ def run(prog):
     # after the includes and at least once after template expansion (a template can produce platform / environment items)
     def after(stage, what):
         return stage in order and what in order[order.index(stage) + 1:]
+    def before(stage, what):
+        return stage in order and what in order[:order.index(stage)]
     ok = (ok_chain and len(order) == len(chain) and order[:1] == ["expand_includes"]
           and after("expand_templates", "filter_platform_specific_cfg") and after("expand_templates", "filter_env_specific_cfg"))
     res.oblige(ok)
@@ -59,6 +61,17 @@ def run(prog):
         res.viol("stage-order", f.loc,
                  "pre-processing order is %s: includes must come first, and the platform / environment filters must run (again) after "
                  "template expansion - otherwise (platform ...) items of included files or produced by templates are left unprocessed"
+                 % (order or names))
+    # ... and once before it: expand_templates collects `deftemplate` among the top-level items only, so a template defined
+    # inside (platform (linux) (deftemplate ..)) / (environment ..) has to be unwrapped before the templates are collected
+    ok_b = ok_chain and before("expand_templates", "filter_platform_specific_cfg") and before("expand_templates", "filter_env_specific_cfg")
+    res.inst("filters-before-templates", ok=ok_b)
+    res.oblige(ok_b)
+    if not ok_b:
+        res.viol("stage-order/filters-before-templates", f.loc,
+                 "pre-processing order is %s: the platform / environment filters no longer run before template expansion. "
+                 "expand_templates only looks for `deftemplate` among the top-level items: a deftemplate wrapped in (platform (...) ..) "
+                 "or (environment ..) is still wrapped when it runs, is never registered, and every use of it is an unknown-template error"
                  % (order or names))
     last_stage_block = prev_block if ok_chain else None
     # variables before any parser that resolves variables
